@@ -10,6 +10,18 @@
    1 = RuleDBForest(reverse=False), 2 = RuleDBForest(reverse=True)).
    Every theorem is an instance of Searcher.Proofs.run_search_inv.
 
+   The theorems of Section Contracts additionally assume the two strategy contracts of
+   Searcher/Contracts.v on the table (pe_contract T pack, sym_contract T) and that the packets
+   carry strategies of `pack` (packets_in pack ps: what the work queue hands out are the
+   initial / inferral / expansion strategies of the pack).  The contracts were RESTATED: in their
+   former form (pe_contract_old: "no possibly_empty=False strategy ever has an empty child", which
+   also bound symmetry strategies on empty classes) they contradicted each other on every table in
+   which a symmetry has an entry on an empty class (C04_old_contracts_exclude_each_other below, the
+   situation of the fixed finding 0aef1b9), so the three theorems were vacuous there.  The repaired
+   pair is decidable (contractsb), is what the harness calls the STRONG contract (the extracted
+   contractsb is compared with the Python predicate on every generated universe), and holds of
+   tables with a symmetry on an empty class (sx_table below).
+
    Vocabulary (Searcher/Inv.v):  lbl d c = Some l  : class c has label l in
    the class database d;  kids_sp sid p : the children the table gives for
    strategy sid on class p;  applies sid p : the table has an entry for
@@ -22,7 +34,8 @@
    empty start class instead of expanding that class. *)
 From Coq Require Import ZArith List Bool Lia.
 From CSS Require Import Base.PyList ClassDB.Model ClassDB.Proofs Gen.Prelude Gen.ReverseShifts
-  Searcher.Model Searcher.Inv Searcher.Proofs.
+  Searcher.Model Searcher.Inv Searcher.Contracts Searcher.ProofsCore Searcher.Proofs.
+From CSS Require RuleDB.Model RuleDB.CdbFacts RuleDB.GetProofs RuleDB.AddProofs RuleDB.AddHist RuleDB.SearchHist.
 Import ListNotations.
 Open Scope Z_scope.
 
@@ -34,13 +47,16 @@ Variables (F : nat) (do_level expand_verified : bool) (answers : list bool) (sta
 Notation final ps := (run_search T mode F do_level expand_verified answers start ps).
 Notation lbl := (label_of Z.eqb (fun c : Z => c)).
 
-Lemma no_contract_pe : False -> forall sid c e,
-  entry_of T sid c = Some e -> pe_of T sid = false -> forall k, In k (e_children e) -> oracle T k = false.
+Lemma no_contract_pe : False -> pe_contract T [].
 Proof. intros []. Qed.
-Lemma no_contract_sym : False -> forall sid c r c0 rest,
-  In sid (t_sym T) -> In r (rules_from_strategy T sid c) -> rule_children T r = Some (c0 :: rest) ->
-  oracle T c0 = oracle T c.
+Lemma no_contract_sym : False -> sym_contract T.
 Proof. intros []. Qed.
+(* the contract-free invariant: C := False, no condition on the packets *)
+Lemma final_inv_free ps : Inv T False Gtriv (final ps).
+Proof.
+  apply (run_search_inv0 T mode False [] no_contract_pe no_contract_sym F do_level expand_verified answers start ps).
+  intros [].
+Qed.
 
 (* 3. equal classes share a label (lbl is a function), different classes never
    do, labels are 0..n-1, along the whole run *)
@@ -48,7 +64,7 @@ Theorem C04_labels : forall ps c1 c2 l,
   lbl (cdb (final ps)) c1 = Some l -> lbl (cdb (final ps)) c2 = Some l -> c1 = c2.
 Proof.
   intros ps c1 c2 l.
-  destruct (run_search_inv T mode False no_contract_pe no_contract_sym F do_level expand_verified answers start ps) as (W & _).
+  destruct (final_inv_free ps) as (W & _).
   exact (label_injective Z.eqb Zeqb_spec (fun c : Z => c) (fun k : Z => k) id_inv (cdb (final ps)) c1 c2 l W).
 Qed.
 
@@ -57,9 +73,9 @@ Theorem C04_labels_stable : forall ps more c l,
   lbl (cdb (final ps)) c = Some l -> lbl (cdb (final (ps ++ more))) c = Some l.
 Proof.
   intros ps more c l H.
-  destruct (run_search_app T mode False no_contract_pe no_contract_sym F do_level expand_verified answers start ps more)
-    as ((W' & _) & X & _).
-  destruct (run_search_inv T mode False no_contract_pe no_contract_sym F do_level expand_verified answers start ps) as (W & _).
+  destruct (run_search_app0 T mode False [] no_contract_pe no_contract_sym F do_level expand_verified answers start ps more)
+    as ((W' & _) & X & _); [intros []|].
+  destruct (final_inv_free ps) as (W & _).
   exact (lbl_ext _ _ _ _ W W' X H).
 Qed.
 
@@ -82,7 +98,7 @@ Theorem C04_recorded_from_table : forall ps start_label ends sid parent,
      (length ends = 1%nat /\ kids_sp T sid parent <> [] /\ sym_yielded T sid parent)))).
 Proof.
   intros ps sl ends sid parent Hin d.
-  destruct (run_search_inv T mode False no_contract_pe no_contract_sym F do_level expand_verified answers start ps) as (_ & _ & Hf).
+  destruct (final_inv_free ps) as (_ & _ & Hf & _).
   rewrite Forall_forall in Hf. specialize (Hf _ Hin). simpl in Hf.
   destruct Hf as (A & B & [D|(D1 & D2 & D3 & D4)]); csplit; auto.
 Qed.
@@ -95,82 +111,116 @@ Theorem C04_no_rule_when_not_applicable : forall ps start_label ends sid parent,
   applies T sid parent = true /\ kids_sp T sid parent <> [parent].
 Proof.
   intros ps sl ends sid parent Hin Hs.
-  destruct (run_search_inv T mode False no_contract_pe no_contract_sym F do_level expand_verified answers start ps) as (_ & _ & Hf).
+  destruct (final_inv_free ps) as (_ & _ & Hf & _).
   rewrite Forall_forall in Hf. specialize (Hf _ Hin). simpl in Hf.
   destruct Hf as (A & B & [(D & _)|(D1 & D2 & D3 & D4)]); [contradiction|auto].
 Qed.
 
 (* 2a. the key RuleDBBase stores is (start, sorted(labels of the children that
    were kept)), `start` being the label of the rule's parent; the kept children
-   are selected from the labels handed to ruledb.add in order (flags bs), and
-   NOTHING is dropped when the rule's strategy is not possibly_empty *)
+   are selected (flags bs) from the labels ls of ALL children of the rule, in
+   order - or, for the calls of _symmetry_expand, from the label of the first
+   child -, and NOTHING is dropped when the rule's strategy is not
+   possibly_empty.  (Contract-free part of C04_stored_key: WHICH children a
+   possibly_empty rule loses is not said here.) *)
 Theorem C04_stored_key_partial : forall ps eqv start_label ends' sid parent,
   In (EvStore eqv start_label ends' sid parent) (trace (final ps)) ->
   let d := cdb (final ps) in
   lbl d parent = Some start_label /\
   exists ls bs,
     Forall2 (fun c l => lbl d c = Some l) (firstn (length ls) (kids_sp T sid parent)) ls /\
+    (length ls = length (kids_sp T sid parent) \/
+     (length ls = 1%nat /\ kids_sp T sid parent <> [] /\ sym_yielded T sid parent)) /\
     length bs = length ls /\ ends' = isort (select bs ls) /\
     (pe_of T sid = false -> ends' = isort ls).
 Proof.
   intros ps eqv sl ends' sid parent Hin d.
-  destruct (run_search_inv T mode False no_contract_pe no_contract_sym F do_level expand_verified answers start ps) as (_ & _ & Hf).
+  destruct (final_inv_free ps) as (_ & _ & Hf & _).
   rewrite Forall_forall in Hf. specialize (Hf _ Hin). simpl in Hf.
-  destruct Hf as (A & ls & bs & B & D & E & G & _). split; auto. exists ls, bs. csplit; auto.
+  destruct Hf as (A & ls & bs & B & B' & D & E & G & _). split; auto. exists ls, bs. csplit; auto.
   intros Hp. rewrite E. f_equal. specialize (G Hp). clear - G D.
   revert ls D; induction bs as [|b t IH]; intros [|x ls] D; simpl in *; auto; try discriminate.
   inversion G; subst. rewrite IH; auto.
 Qed.
 
 Section Contracts.
-(* the documented strategy contracts, on the table *)
-Hypothesis pe_contract : forall sid c e, (* in-section *)
-  entry_of T sid c = Some e -> pe_of T sid = false -> forall k, In k (e_children e) -> oracle T k = false.
-Hypothesis sym_contract : forall sid c r c0 rest, (* in-section *)
-  In sid (t_sym T) -> In r (rules_from_strategy T sid c) -> rule_children T r = Some (c0 :: rest) ->
-  oracle T c0 = oracle T c.
+(* the strategy contracts, on the table (Searcher/Contracts.v): a possibly_empty=False strategy has no empty
+   child on a non-empty class, and none on an empty class either when its rules go through add_rule
+   (`applied`: handed out by the queue = in `pack`, a verification strategy, or yielded by a factory that is);
+   the first child of a rule a symmetry yields is empty iff the class is *)
+Variable pack : list Z.
+Hypothesis Hpe : pe_contract T pack. (* in-section *)
+Hypothesis Hsym : sym_contract T. (* in-section *)
 
-Lemma final_inv_contracts ps : Inv T True (final ps).
+Lemma final_inv_contracts ps : packets_in pack ps -> Inv T True Gtriv (final ps).
 Proof.
-  apply (run_search_inv T mode True (fun _ => pe_contract) (fun _ => sym_contract)).
+  intros Hps.
+  apply (run_search_inv0 T mode True pack (fun _ => Hpe) (fun _ => Hsym) F do_level expand_verified answers start ps).
+  intros _; exact Hps.
 Qed.
 
 (* 5. every set_empty(label, v) the searcher issues tells the truth about the
    class carrying the label, and hence the cached emptiness of every label
    equals the class's own answer at the end of every run *)
-Theorem C04_set_empty_consistent : forall ps l v,
+Theorem C04_set_empty_consistent : forall ps l v, packets_in pack ps ->
   In (EvSetEmpty l v) (trace (final ps)) ->
   exists c, lbl (cdb (final ps)) c = Some l /\ oracle T c = v.
 Proof.
-  intros ps l v Hin. destruct (final_inv_contracts ps) as (_ & _ & Hf).
+  intros ps l v Hps Hin. destruct (final_inv_contracts ps Hps) as (_ & _ & Hf & _).
   rewrite Forall_forall in Hf. specialize (Hf _ Hin). simpl in Hf.
   destruct Hf as (c & A & B). exists c; auto.
 Qed.
 
-Theorem C04_empty_cache_truthful : forall ps i c b,
+Theorem C04_empty_cache_truthful : forall ps i c b, packets_in pack ps ->
   nth_error (classes (cdb (final ps))) i = Some c ->
   nth_error (empties (cdb (final ps))) i = Some (Some b) -> b = oracle T c.
 Proof.
-  intros ps i c b. destruct (final_inv_contracts ps) as (_ & E & _). apply (E Logic.I).
+  intros ps i c b Hps. destruct (final_inv_contracts ps Hps) as (_ & E & _). apply (E Logic.I).
 Qed.
 
 (* 2b. under the contracts the stored key is exactly
    (label of the parent, sorted(labels of the children that are not
-   (possibly_empty and empty))): a child is dropped iff the rule is
+   (possibly_empty and empty))), over ALL children of the rule (for the calls of
+   _symmetry_expand: over the first child): a child is dropped iff the rule is
    possibly_empty AND the class is truly empty *)
-Theorem C04_stored_key : forall ps eqv start_label ends' sid parent,
+Theorem C04_stored_key : forall ps eqv start_label ends' sid parent, packets_in pack ps ->
   In (EvStore eqv start_label ends' sid parent) (trace (final ps)) ->
   let d := cdb (final ps) in
   lbl d parent = Some start_label /\
   exists ls,
     Forall2 (fun c l => lbl d c = Some l) (firstn (length ls) (kids_sp T sid parent)) ls /\
+    (length ls = length (kids_sp T sid parent) \/
+     (length ls = 1%nat /\ kids_sp T sid parent <> [] /\ sym_yielded T sid parent)) /\
     ends' = isort (select (map (fun c => negb (pe_of T sid && oracle T c))
                                (firstn (length ls) (kids_sp T sid parent))) ls).
 Proof.
-  intros ps eqv sl ends' sid parent Hin d. destruct (final_inv_contracts ps) as (_ & _ & Hf).
+  intros ps eqv sl ends' sid parent Hps Hin d. destruct (final_inv_contracts ps Hps) as (_ & _ & Hf & _).
   rewrite Forall_forall in Hf. specialize (Hf _ Hin). simpl in Hf.
-  destruct Hf as (A & ls & bs & B & D & E & G & H). split; auto. exists ls. split; auto.
+  destruct Hf as (A & ls & bs & B & B' & D & E & G & H). split; auto. exists ls. split; auto. split; auto.
   rewrite <- (H Logic.I). exact E.
+Qed.
+
+(* 2c. ... and when symmetries yield unary rules (sym_unary: SymmetryStrategy is a unary equivalence strategy)
+   the labels are those of ALL children for every stored key: the children missing from the key are exactly
+   the truly empty children of possibly_empty rules *)
+Theorem C04_stored_key_all_children : sym_unary T ->
+  forall ps eqv start_label ends' sid parent, packets_in pack ps ->
+  In (EvStore eqv start_label ends' sid parent) (trace (final ps)) ->
+  let d := cdb (final ps) in
+  lbl d parent = Some start_label /\
+  exists ls,
+    Forall2 (fun c l => lbl d c = Some l) (kids_sp T sid parent) ls /\
+    ends' = isort (select (map (fun c => negb (pe_of T sid && oracle T c)) (kids_sp T sid parent)) ls).
+Proof.
+  intros Hun ps eqv sl ends' sid parent Hps Hin d.
+  destruct (C04_stored_key ps eqv sl ends' sid parent Hps Hin) as (A & ls & B & D & E). split; auto. exists ls.
+  assert (length ls = length (kids_sp T sid parent)) as Hlen.
+  { destruct D as [D|(D1 & D2 & (sid0 & c0 & r & Y1 & Y2 & Y3 & Y4))]; auto.
+    assert (rule_children T r = Some (kids_sp T sid parent)) as Hc.
+    { pose proof (rule_kind_of_strategy T sid0 c0 r Y2) as Hk. unfold rule_children, kids_sp in *. rewrite Y3, Y4.
+      destruct (r_kind r); try congruence; destruct (entry_of T sid parent); simpl; auto; congruence. }
+    rewrite (Hun sid0 c0 r _ Y1 Y2 Hc). exact D1. }
+  rewrite Hlen, firstn_all in B, E. auto.
 Qed.
 
 End Contracts.
@@ -182,7 +232,28 @@ End C04.
      "an empty rule is only ever recorded for a truly empty class, under that
      class's label" is part of C04_recorded_from_table);
    - completeness: every rule the table yields for an expanded packet IS recorded;
-   - the forest keys (EvKey) and the equivalence-edge events are not characterised. *)
+   - the forest keys (EvKey) and the equivalence-edge events are not characterised;
+   - "a dropped child is truly empty" under sym_contract alone (it is proved under both contracts only:
+     the cached value `empty` can only come from the class itself or from _symmetry_expand, but the
+     invariant carried through the run is the two-sided EmptyOK of C15). *)
+
+(* ---------------------------------------------------------------------------------------------
+   The former statement of the contracts.  pe_contract_old (Searcher/Contracts.v) is the hypothesis
+   the three theorems above used to carry: it binds EVERY strategy on EVERY class, symmetry
+   strategies on empty classes included.  Together with sym_contract it is unsatisfiable as soon as a
+   symmetry yields a rule with a child on an empty class (a symmetry strategy declares
+   possibly_empty = False, its image of an empty class is empty) - so on such tables
+   C04_set_empty_consistent, C04_empty_cache_truthful, C04_stored_key (and C14_search_states_keep_answers)
+   said nothing.  It still implies the repaired contract (pe_contract_old_new). *)
+Theorem C04_old_contracts_exclude_each_other : forall (T : table) sid c r c0 rest,
+  In sid (t_sym T) -> In r (rules_from_strategy T sid c) -> rule_children T r = Some (c0 :: rest) ->
+  r_pe T r = false -> oracle T c = true -> pe_contract_old T -> sym_contract T -> False.
+Proof. exact old_contracts_exclude_each_other. Qed.
+
+(* the decision procedure the harness runs on every universe decides the two contracts *)
+Theorem C04_contracts_decided : forall (T : table) pack,
+  contractsb T pack = true <-> pe_contract T pack /\ sym_contract T.
+Proof. exact contractsb_spec. Qed.
 
 (* non-vacuity: a table honouring both contracts whose run records a rule with a
    dropped empty child, a foreign-parent rule of a factory, a lazily failing
@@ -195,6 +266,8 @@ Definition ex_table : table :=
         mkS 0 false true false true [(1, mkE [3] true true [1])] [];                      (* 3: hidden plain *)
         mkS 3 false false false false [(0, mkE [4] true true [0])] [] ]                   (* 4: symmetry *)
       [0] [4].
+(* the strategies the queue hands out in the example: the plain strategy 1 and the factory 2 *)
+Definition ex_pack : list Z := [1; 2].
 
 Example C04_nonvacuous :
   let s := run_search ex_table 0 20 false true [false; false; false; false; false; false; false; false] 0
@@ -214,39 +287,25 @@ Example C04_nonvacuous_empty_start :
   rev (trace s) = [EvQAdd 0; EvQStop 0; EvQStop 0; EvAdd 0 [] (-1) 2; EvVerified 0; EvStore false 0 [] (-1) 2].
 Proof. vm_compute. csplit; reflexivity. Qed.
 
-Example C04_nonvacuous_pe_contract : forall sid c e,
-  entry_of ex_table sid c = Some e -> pe_of ex_table sid = false ->
-  forall k, In k (e_children e) -> oracle ex_table k = false.
-Proof.
-  intros sid c e H Hp k Hk. unfold entry_of, pe_of, flag in *.
-  destruct (strat_of ex_table sid) as [x|] eqn:Es; [|discriminate].
-  unfold strat_of in Es. destruct (sid <? 0); [discriminate|].
-  destruct (Z.to_nat sid) as [|[|[|[|[|n]]]]]; simpl in Es; try (destruct n; discriminate);
-    injection Es as <-; simpl in *; try discriminate;
-    repeat match type of H with context [if ?b then _ else _] => destruct b end; try discriminate;
-    injection H as <-; simpl in Hk; intuition; subst; reflexivity.
-Qed.
-
-Example C04_nonvacuous_sym_contract : forall sid c r c0 rest,
-  In sid (t_sym ex_table) -> In r (rules_from_strategy ex_table sid c) ->
-  rule_children ex_table r = Some (c0 :: rest) -> oracle ex_table c0 = oracle ex_table c.
-Proof.
-  intros sid c r c0 rest [<-|[]]. unfold rules_from_strategy, applies, entry_of. simpl.
-  destruct c; simpl; try (intros []; fail).
-  intros [<-|[]]. vm_compute. intros [= <- <-]. reflexivity.
-Qed.
+(* the contracts hold of ex_table: decided by computation (C04_contracts_decided) *)
+Example C04_nonvacuous_pe_contract : pe_contract ex_table ex_pack.
+Proof. apply (proj1 (proj1 (contractsb_spec ex_table ex_pack) eq_refl)). Qed.
+Example C04_nonvacuous_sym_contract : sym_contract ex_table.
+Proof. apply (proj2 (proj1 (contractsb_spec ex_table ex_pack) eq_refl)). Qed.
 
 (* ------------------------------------------------------------------------
    NON-VACUITY (audit): every theorem of this file APPLIED to the run of ex_table above (5 strategies
    of 4 kinds, 5 classes one of which is empty, two packets, 26 events), so that Coq checks that what
    is discharged are the theorems' own hypotheses; the two contracts are discharged by
-   C04_nonvacuous_pe_contract / C04_nonvacuous_sym_contract. *)
+   C04_nonvacuous_pe_contract / C04_nonvacuous_sym_contract, the packet condition by computation. *)
 Definition ex_ans : list bool := [false; false; false; false; false; false; false; false].
 Definition ex_p1 : packet := mkP 0 [1] false.
 Definition ex_p2 : packet := mkP 0 [2] false.
 Notation ex_run ps := (run_search ex_table 0 20 false true ex_ans 0 ps).
 Notation exlbl := (label_of Z.eqb (fun c : Z => c)).
 Ltac in_trace := vm_compute; repeat (first [left; reflexivity | right]).
+Lemma ex_packets : packets_in ex_pack [ex_p1; ex_p2].
+Proof. apply (proj1 (packets_inb_spec ex_pack [ex_p1; ex_p2])). reflexivity. Qed.
 
 (* label 2 belongs to class 1 and to no other class *)
 Example C04_labels_nonvacuous :
@@ -326,6 +385,8 @@ Example C04_stored_key_partial_nonvacuous :
   exlbl d 0 = Some 0 /\
   exists ls bs,
     Forall2 (fun c l => exlbl d c = Some l) (firstn (length ls) (kids_sp ex_table 1 0)) ls /\
+    (length ls = length (kids_sp ex_table 1 0) \/
+     (length ls = 1%nat /\ kids_sp ex_table 1 0 <> [] /\ sym_yielded ex_table 1 0)) /\
     length bs = length ls /\ [2] = isort (select bs ls) /\
     (pe_of ex_table 1 = false -> [2] = isort ls).
 Proof.
@@ -338,6 +399,8 @@ Example C04_stored_key_partial_not_pe_nonvacuous :
   exlbl d 1 = Some 2 /\
   exists ls bs,
     Forall2 (fun c l => exlbl d c = Some l) (firstn (length ls) (kids_sp ex_table 3 1)) ls /\
+    (length ls = length (kids_sp ex_table 3 1) \/
+     (length ls = 1%nat /\ kids_sp ex_table 3 1 <> [] /\ sym_yielded ex_table 3 1)) /\
     length bs = length ls /\ [4] = isort (select bs ls) /\
     (pe_of ex_table 3 = false -> [4] = isort ls).
 Proof.
@@ -351,8 +414,8 @@ Proof. split; reflexivity. Qed.
 Example C04_set_empty_consistent_nonvacuous :
   exists c, exlbl (cdb (ex_run [ex_p1; ex_p2])) c = Some 4 /\ oracle ex_table c = false.
 Proof.
-  apply (C04_set_empty_consistent ex_table 0 20 false true ex_ans 0
-           C04_nonvacuous_pe_contract C04_nonvacuous_sym_contract [ex_p1; ex_p2] 4 false). in_trace.
+  apply (C04_set_empty_consistent ex_table 0 20 false true ex_ans 0 ex_pack
+           C04_nonvacuous_pe_contract C04_nonvacuous_sym_contract [ex_p1; ex_p2] 4 false ex_packets). in_trace.
 Qed.
 
 (* the cache holds `true` at position 3 (class 2, truly empty) and `false` at position 2 (class 1) *)
@@ -360,11 +423,11 @@ Example C04_empty_cache_truthful_nonvacuous :
   true = oracle ex_table 2 /\ false = oracle ex_table 1.
 Proof.
   split.
-  - apply (C04_empty_cache_truthful ex_table 0 20 false true ex_ans 0
-             C04_nonvacuous_pe_contract C04_nonvacuous_sym_contract [ex_p1; ex_p2] 3%nat 2 true);
+  - apply (C04_empty_cache_truthful ex_table 0 20 false true ex_ans 0 ex_pack
+             C04_nonvacuous_pe_contract C04_nonvacuous_sym_contract [ex_p1; ex_p2] 3%nat 2 true ex_packets);
       vm_compute; reflexivity.
-  - apply (C04_empty_cache_truthful ex_table 0 20 false true ex_ans 0
-             C04_nonvacuous_pe_contract C04_nonvacuous_sym_contract [ex_p1; ex_p2] 2%nat 1 false);
+  - apply (C04_empty_cache_truthful ex_table 0 20 false true ex_ans 0 ex_pack
+             C04_nonvacuous_pe_contract C04_nonvacuous_sym_contract [ex_p1; ex_p2] 2%nat 1 false ex_packets);
       vm_compute; reflexivity.
 Qed.
 
@@ -374,11 +437,13 @@ Example C04_stored_key_nonvacuous :
   exlbl d 0 = Some 0 /\
   exists ls,
     Forall2 (fun c l => exlbl d c = Some l) (firstn (length ls) (kids_sp ex_table 1 0)) ls /\
+    (length ls = length (kids_sp ex_table 1 0) \/
+     (length ls = 1%nat /\ kids_sp ex_table 1 0 <> [] /\ sym_yielded ex_table 1 0)) /\
     [2] = isort (select (map (fun c => negb (pe_of ex_table 1 && oracle ex_table c))
                              (firstn (length ls) (kids_sp ex_table 1 0))) ls).
 Proof.
-  apply (C04_stored_key ex_table 0 20 false true ex_ans 0
-           C04_nonvacuous_pe_contract C04_nonvacuous_sym_contract [ex_p1; ex_p2] false 0 [2] 1 0). in_trace.
+  apply (C04_stored_key ex_table 0 20 false true ex_ans 0 ex_pack
+           C04_nonvacuous_pe_contract C04_nonvacuous_sym_contract [ex_p1; ex_p2] false 0 [2] 1 0 ex_packets). in_trace.
 Qed.
 (* the witness: ls = [2; 3] (labels of classes 1 and 2), the flag of the empty class 2 is false *)
 Example C04_stored_key_witness :
@@ -388,6 +453,219 @@ Example C04_stored_key_witness :
   isort (select [true; false] [2; 3]) = [2].
 Proof. cbv zeta. csplit; [repeat constructor| |]; vm_compute; reflexivity. Qed.
 
+(* ------------------------------------------------------------------------
+   APPLIED to a table with a SYMMETRY ENTRY ON AN EMPTY CLASS (the situation the former contracts excluded):
+   classes 2 and 3 are empty, the symmetry (strategy 2, possibly_empty = False) maps 0 -> (4) and the empty
+   class 2 -> the empty class 3; the possibly_empty strategy 1 decomposes the start class 0 into (1, 2), so the
+   empty class 2 is labelled (label 3), symmetry-expanded (class 3 gets label 4), the searcher calls
+   set_empty(4, True), the rule  S2(2) -> (3,)  is recorded and stored under (3, (4,)) with its EMPTY child KEPT
+   (the rule is not possibly_empty: fix 0aef1b9), and the empty child of S1(0) is dropped: (0, (2,)). *)
+Definition sx_table : table :=
+  mkT [0; 0; 1; 1; 0]
+      [ mkS 2 false false false false [(1, mkE [] false false [])] [];                                   (* 0: verification *)
+        mkS 0 false true true true [(0, mkE [1; 2] false true [0; 1])] [];                              (* 1: plain, possibly_empty *)
+        mkS 3 false false false false [(0, mkE [4] true true [0]); (2, mkE [3] true true [0])] [] ]    (* 2: symmetry *)
+      [0] [2].
+Definition sx_pack : list Z := [1].
+Definition sx_ps : list packet := [mkP 0 [1] false].
+Notation sx_run := (run_search sx_table 0 20 false true ex_ans 0 sx_ps).
+
+Example C04_sx_run :
+  stat sx_run = Running /\ classes (cdb sx_run) = [0; 4; 1; 2; 3] /\
+  empties (cdb sx_run) = [Some false; Some false; Some false; Some true; Some true] /\
+  rev (trace sx_run) =
+    [EvQAdd 0; EvSetEmpty 1 false; EvAdd 0 [1] 2 0; EvEdge true 0 1; EvStore true 0 [1] 2 0; EvQStop 1;
+     EvQAdd 2; EvAdd 2 [] 0 1; EvVerified 2; EvStore false 2 [] 0 1;
+     EvSetEmpty 4 true; EvAdd 3 [4] 2 2; EvEdge true 3 4; EvStore true 3 [4] 2 2; EvQStop 4;
+     EvQAdd 3; EvAdd 0 [2; 3] 1 0; EvQStop 3; EvEdge false 0 2; EvStore false 0 [2] 1 0].
+Proof. vm_compute. csplit; reflexivity. Qed.
+
+(* the FORMER contracts cannot both hold of sx_table ... *)
+Example C04_sx_old_contracts_contradictory : pe_contract_old sx_table -> sym_contract sx_table -> False.
+Proof.
+  apply (C04_old_contracts_exclude_each_other sx_table 2 2 (mkR 2 2 RPlain) 3 []); try reflexivity.
+  - left; reflexivity.
+  - vm_compute. left; reflexivity.
+Qed.
+(* ... the repaired ones do (decided by computation) *)
+Example C04_sx_pe_contract : pe_contract sx_table sx_pack.
+Proof. apply (proj1 (proj1 (contractsb_spec sx_table sx_pack) eq_refl)). Qed.
+Example C04_sx_sym_contract : sym_contract sx_table.
+Proof. apply (proj2 (proj1 (contractsb_spec sx_table sx_pack) eq_refl)). Qed.
+Example C04_sx_sym_unary : sym_unary sx_table.
+Proof. apply (proj1 (sym_unaryb_spec sx_table)). reflexivity. Qed.
+Lemma sx_packets : packets_in sx_pack sx_ps.
+Proof. apply (proj1 (packets_inb_spec sx_pack sx_ps)). reflexivity. Qed.
+
+(* set_empty(4, True): label 4 carries class 3, which IS empty *)
+Example C04_set_empty_consistent_sym_on_empty :
+  exists c, exlbl (cdb sx_run) c = Some 4 /\ oracle sx_table c = true.
+Proof.
+  apply (C04_set_empty_consistent sx_table 0 20 false true ex_ans 0 sx_pack
+           C04_sx_pe_contract C04_sx_sym_contract sx_ps 4 true sx_packets). in_trace.
+Qed.
+(* the cache says `empty` for label 4 (class 3) and for label 3 (class 2): both are *)
+Example C04_empty_cache_truthful_sym_on_empty :
+  true = oracle sx_table 3 /\ true = oracle sx_table 2.
+Proof.
+  split.
+  - apply (C04_empty_cache_truthful sx_table 0 20 false true ex_ans 0 sx_pack
+             C04_sx_pe_contract C04_sx_sym_contract sx_ps 4%nat 3 true sx_packets); vm_compute; reflexivity.
+  - apply (C04_empty_cache_truthful sx_table 0 20 false true ex_ans 0 sx_pack
+             C04_sx_pe_contract C04_sx_sym_contract sx_ps 3%nat 2 true sx_packets); vm_compute; reflexivity.
+Qed.
+(* the stored key of the symmetry rule on the empty class 2: all (= the one) children, the empty child kept *)
+Example C04_stored_key_sym_on_empty :
+  let d := cdb sx_run in
+  exlbl d 2 = Some 3 /\
+  exists ls,
+    Forall2 (fun c l => exlbl d c = Some l) (kids_sp sx_table 2 2) ls /\
+    [4] = isort (select (map (fun c => negb (pe_of sx_table 2 && oracle sx_table c)) (kids_sp sx_table 2 2)) ls).
+Proof.
+  apply (C04_stored_key_all_children sx_table 0 20 false true ex_ans 0 sx_pack
+           C04_sx_pe_contract C04_sx_sym_contract C04_sx_sym_unary sx_ps true 3 [4] 2 2 sx_packets). in_trace.
+Qed.
+Example C04_stored_key_sym_on_empty_facts :
+  kids_sp sx_table 2 2 = [3] /\ oracle sx_table 3 = true /\ pe_of sx_table 2 = false.
+Proof. csplit; reflexivity. Qed.
+(* ... and of the possibly_empty rule S1(0) -> (1, 2): the empty child (class 2, label 3) dropped *)
+Example C04_stored_key_dropped_on_sx :
+  let d := cdb sx_run in
+  exlbl d 0 = Some 0 /\
+  exists ls,
+    Forall2 (fun c l => exlbl d c = Some l) (kids_sp sx_table 1 0) ls /\
+    [2] = isort (select (map (fun c => negb (pe_of sx_table 1 && oracle sx_table c)) (kids_sp sx_table 1 0)) ls).
+Proof.
+  apply (C04_stored_key_all_children sx_table 0 20 false true ex_ans 0 sx_pack
+           C04_sx_pe_contract C04_sx_sym_contract C04_sx_sym_unary sx_ps false 0 [2] 1 0 sx_packets). in_trace.
+Qed.
+
+(* ------------------------------------------------------------------------
+   Why clause (b) of pe_contract is there.  The DOCUMENTED contract alone ("a possibly_empty = False strategy
+   has no empty child on a NON-EMPTY class") together with sym_contract does not make the emptiness cache
+   truthful: the searcher does present empty classes to non-symmetry strategies.  Here the factory 1 (handed
+   out by the queue for the start class 0) yields the ready rule  S2(1) -> (2,)  with the foreign, EMPTY parent
+   class 1 and the empty child 2; strategy 2 is not possibly_empty, add_rule calls set_empty(label of 2, False). *)
+Definition documented_pe_contract (T : table) : Prop := forall sid c e,
+  entry_of T sid c = Some e -> pe_of T sid = false -> oracle T c = false ->
+  forall k, In k (e_children e) -> oracle T k = false.
+Definition dx_table : table :=
+  mkT [0; 1; 1]
+      [ mkS 2 false false false false [] [];
+        mkS 1 false true true true [] [(0, [mkI 2 (Some 1) false])];
+        mkS 0 false true false true [(1, mkE [2] false false [0])] [] ]
+      [0] [].
+Theorem C04_documented_contracts_insufficient_refuted :
+  let s := run_search dx_table 0 20 false true ex_ans 0 [mkP 0 [1] false] in
+  documented_pe_contract dx_table /\ sym_contract dx_table /\ packets_in [1] [mkP 0 [1] false] /\
+  stat s = Running /\ In (EvSetEmpty 1 false) (trace s) /\
+  exlbl (cdb s) 2 = Some 1 /\ oracle dx_table 2 = true /\ contractsb dx_table [1] = false.
+Proof.
+  cbv zeta. csplit; try (vm_compute; reflexivity).
+  - intros sid c e He Hpe Ho k Hk. unfold entry_of in He.
+    destruct (strat_of dx_table sid) as [x|] eqn:Es; [|discriminate].
+    unfold strat_of in Es. destruct (sid <? 0); [discriminate|].
+    destruct (Z.to_nat sid) as [|[|[|n]]]; simpl in Es; try (destruct n; discriminate); injection Es as <-;
+      simpl in He; try discriminate.
+    destruct c as [|[q|q|]|q]; discriminate.
+  - intros sid c r c0 rest [].
+  - apply (proj1 (packets_inb_spec [1] [mkP 0 [1] false])). reflexivity.
+  - in_trace.
+Qed.
+
+(* ---------------------------------------------------------------------------------------------
+   COMPOSITION C04 -> C14 / C02.  Every run of the searcher model on a pruning database (mode 0: RuleDB /
+   RuleDBForgetStrategy) builds its rule stores by an add_hist history in the sense of RuleDB/AddHist.v (the
+   hypothesis of C14_stored_rule_is_handed_back, C02_find_rule_total): there is a RuleDB state  a  and a list  l  of
+   ruledb.add steps (newest first) with  add_hist_l T l a  - each step made under add_pre in the class database AT
+   THE TIME OF THE CALL (start = label of the rule's parent, ends = labels of ALL its children), with kind_ok and
+   twoway_faithful - such that the steps are exactly, in order, the ruledb.add events of the trace, the class
+   database and the key sets of the two stores of  a  are those of the run, the calls  a  made on the equivalence
+   database are the trace's set_verified / edge events, and the emptiness cache is truthful.
+   For ANY table honouring the contracts, start class, packets of pack strategies, answers, fuel, driver - also
+   for runs that die or run out of fuel (the statement is about the state they stop in).
+   Hypotheses that are NOT discharged, and why:
+   - sym_unary: the record of a rule a symmetry yields carries the label of its first child only; add_pre needs
+     the labels of all children, so symmetry rules must be unary (SymmetryStrategy is; a factory passed as a
+     symmetry may not be);
+   - twoway_faithful for the rule objects of the table: in Python a rule object IS strategy(comb_class); in the
+     table model a factory item may name a verification strategy, and then the model's RPlain rule object differs
+     from its re-application (RVer).  RuleDB.SearchHist.items_plain_faithful derives it from the decidable table
+     condition "no factory item names a verification strategy" (items_plainb). *)
+Theorem C04_search_gives_add_hist : forall (T : table) (pack : list Z),
+  sym_unary T -> (forall sid0 c0 r, In r (rules_from_strategy T sid0 c0) -> AddHist.twoway_faithful T r) ->
+  pe_contract T pack -> sym_contract T ->
+  forall F dl ev ans start ps, packets_in pack ps ->
+  let s := run_search T 0 F dl ev ans start ps in
+  exists a l, SearchHist.add_hist_l T l a /\ AddHist.add_hist T a /\
+    RuleDB.Model.b_cdb RuleDB.Model.dstore a = cdb s /\
+    RuleDB.Model.d_keys (RuleDB.Model.b_r RuleDB.Model.dstore a) = rstore s /\
+    RuleDB.Model.d_keys (RuleDB.Model.b_e RuleDB.Model.dstore a) = estore s /\
+    SearchHist.adds_of (trace s) = map SearchHist.add_ev l /\
+    SearchHist.eqs_of (trace s) = RuleDB.Model.b_eq RuleDB.Model.dstore a /\
+    EmptyOK (fun k : Z => k) (oracle T) (cdb s).
+Proof.
+  intros T pack Hu Hf Hp Hs F dl ev ans start ps Hps s.
+  destruct (SearchHist.search_gives_add_hist T 0 pack Hu Hf Hp Hs F dl ev ans start ps Hps eq_refl)
+    as (a & l & A & B). exists a, l. split; [exact A|]. split; [apply (SearchHist.add_hist_l_hist T l a A)|exact B].
+Qed.
+
+(* ... hence every ruledb.add(start, ends, rule (sid, parent)) event of such a run was made under add_pre in the
+   class database d of that moment, and the class database the run ends in still gives the labels and is_empty
+   answers of the database that call left (pres: what a later lookup in RuleDBForgetStrategy needs) *)
+Theorem C04_adds_made_under_add_pre : forall (T : table) (pack : list Z),
+  sym_unary T -> (forall sid0 c0 r, In r (rules_from_strategy T sid0 c0) -> AddHist.twoway_faithful T r) ->
+  pe_contract T pack -> sym_contract T ->
+  forall F dl ev ans start ps, packets_in pack ps ->
+  let s := run_search T 0 F dl ev ans start ps in
+  forall start_label ends sid parent, In (EvAdd start_label ends sid parent) (trace s) ->
+  exists d r cs, r_sid r = sid /\ r_parent r = parent /\
+    AddProofs.add_pre T d start_label ends r cs /\ GetProofs.kind_ok T r /\
+    CdbFacts.pres T (RuleDB.Model.b_cdb RuleDB.Model.dstore
+                       (RuleDB.Model.dict_add T (RuleDB.Model.dict_init d) start_label ends r)) (cdb s).
+Proof.
+  intros T pack Hu Hf Hp Hs F dl ev ans start ps Hps s sl ends sid parent Hin.
+  destruct (SearchHist.search_gives_add_hist T 0 pack Hu Hf Hp Hs F dl ev ans start ps Hps eq_refl)
+    as (a & l & A & B & _ & _ & D & _).
+  assert (In (EvAdd sl ends sid parent) (SearchHist.adds_of (trace s))) as Hin'.
+  { apply SearchHist.adds_of_In. split; [exact Hin|eauto]. }
+  fold s in D. rewrite D in Hin'. apply in_map_iff in Hin' as (x & Hx & Hxl).
+  pose proof (SearchHist.add_hist_l_steps T l a A) as Hall. rewrite Forall_forall in Hall.
+  destruct (Hall x Hxl) as (P1 & P2 & P3). unfold SearchHist.add_ev in Hx. injection Hx as <- <- <- <-.
+  exists (SearchHist.h_d x), (SearchHist.h_r x), (SearchHist.h_cs x). fold s in B. rewrite <- B. auto.
+Qed.
+
+(* applied to the run of sx_table (symmetry on an empty class): 5 ruledb.add calls, newest first *)
+Example C04_sx_faithful : forall sid0 c0 r, In r (rules_from_strategy sx_table sid0 c0) -> AddHist.twoway_faithful sx_table r.
+Proof. apply SearchHist.items_plain_faithful. reflexivity. Qed.
+Example C04_search_gives_add_hist_nonvacuous :
+  exists a l, SearchHist.add_hist_l sx_table l a /\ AddHist.add_hist sx_table a /\
+    RuleDB.Model.b_cdb RuleDB.Model.dstore a = cdb sx_run /\
+    RuleDB.Model.d_keys (RuleDB.Model.b_r RuleDB.Model.dstore a) = rstore sx_run /\
+    RuleDB.Model.d_keys (RuleDB.Model.b_e RuleDB.Model.dstore a) = estore sx_run /\
+    SearchHist.adds_of (trace sx_run) = map SearchHist.add_ev l /\
+    SearchHist.eqs_of (trace sx_run) = RuleDB.Model.b_eq RuleDB.Model.dstore a /\
+    EmptyOK (fun k : Z => k) (oracle sx_table) (cdb sx_run).
+Proof.
+  exact (C04_search_gives_add_hist sx_table sx_pack C04_sx_sym_unary C04_sx_faithful C04_sx_pe_contract C04_sx_sym_contract
+           20%nat false true ex_ans 0 sx_ps sx_packets).
+Qed.
+Example C04_search_gives_add_hist_values :
+  rstore sx_run = [(2, []); (0, [2])] /\ estore sx_run = [(0, [1]); (3, [4])] /\
+  SearchHist.adds_of (trace sx_run) = [EvAdd 0 [2; 3] 1 0; EvAdd 3 [4] 2 2; EvAdd 2 [] 0 1; EvAdd 0 [1] 2 0] /\
+  SearchHist.eqs_of (trace sx_run) =
+    [RuleDB.Model.EqEdge false 0 2; RuleDB.Model.EqEdge true 3 4; RuleDB.Model.EqVerified 2; RuleDB.Model.EqEdge true 0 1].
+Proof. csplit; vm_compute; reflexivity. Qed.
+(* the add of the symmetry rule on the EMPTY class 2 (label 3) was made with the label of its (empty) child 3 *)
+Example C04_adds_made_under_add_pre_nonvacuous :
+  exists d r cs, r_sid r = 2 /\ r_parent r = 2 /\ AddProofs.add_pre sx_table d 3 [4] r cs /\ GetProofs.kind_ok sx_table r /\
+    CdbFacts.pres sx_table (RuleDB.Model.b_cdb RuleDB.Model.dstore
+                              (RuleDB.Model.dict_add sx_table (RuleDB.Model.dict_init d) 3 [4] r)) (cdb sx_run).
+Proof.
+  apply (C04_adds_made_under_add_pre sx_table sx_pack C04_sx_sym_unary C04_sx_faithful C04_sx_pe_contract C04_sx_sym_contract
+           20%nat false true ex_ans 0 sx_ps sx_packets 3 [4] 2 2). in_trace.
+Qed.
+
 Print Assumptions C04_labels.
 Print Assumptions C04_labels_stable.
 Print Assumptions C04_recorded_from_table.
@@ -396,3 +674,9 @@ Print Assumptions C04_stored_key_partial.
 Print Assumptions C04_set_empty_consistent.
 Print Assumptions C04_empty_cache_truthful.
 Print Assumptions C04_stored_key.
+Print Assumptions C04_stored_key_all_children.
+Print Assumptions C04_old_contracts_exclude_each_other.
+Print Assumptions C04_contracts_decided.
+Print Assumptions C04_documented_contracts_insufficient_refuted.
+Print Assumptions C04_search_gives_add_hist.
+Print Assumptions C04_adds_made_under_add_pre.
